@@ -14,7 +14,7 @@ None == <<0, 0>>
 GS == SeqsUpTo(GA, GL)
 GP == 0..(GL + 1)
 \* sizes of the object-level `sub': the small positions and the symbolic sizes GH, as pairs <<number, name>>
-GSz == { <<p, "">> : p \in GP } \cup { <<0, h>> : h \in GH }
+GSz == { <<p, "">> : p \in GP } \cup { <<0, hn>> : hn \in GH }
 OC(fn, i, j, k, s1, s2, n1, n2) == [op |-> "o", fn |-> fn, i |-> i, j |-> j, k |-> k, s1 |-> s1, s2 |-> s2, n1 |-> n1, n2 |-> n2, hg |-> <<"", "">>]
 OCH(fn, i, j, b, n) == [op |-> "o", fn |-> fn, i |-> i, j |-> j, k |-> 0, s1 |-> <<>>, s2 |-> <<>>, n1 |-> b[1], n2 |-> n[1], hg |-> <<b[2], n[2]>>]
 
